@@ -853,3 +853,71 @@ pub extern "C" fn chk_total(ptr: *const u8, n: usize) -> u32 {
     cover(5);
     (a + b + c + d + e + f) as u32
 }
+
+// ------------------------------------------------------------------------------------------------
+// C18 / C05: capacities beyond 2^16 (a narrower length counter would wrap or overflow)
+// ------------------------------------------------------------------------------------------------
+#[no_mangle]
+pub extern "C" fn chk_arraybuf_big(ptr: *const u8, n: usize) -> u32 {
+    let x = unsafe { input(ptr, n) };
+    if x.len() != 3 {
+        return 0;
+    }
+    const N: usize = 65600;
+    let mut b = ArrayBuf::<N>::default();
+    let filler = [0x11u8; 65534];
+    if b.extend_from_slice(&filler).is_err() || b.len() != 65534 {
+        fail(1801);
+    }
+    // cross the 2^16 boundary one byte at a time
+    for (i, v) in x.iter().enumerate() {
+        if b.push(*v).is_err() {
+            fail(1802);
+        }
+        if b.len() != 65535 + i || b[65534 + i] != *v {
+            fail(1803);
+        }
+    }
+    // ... and with a slice
+    if b.extend_from_slice(x).is_err() || b.len() != 65540 || b[65537] != x[0] || b[65539] != x[2] || b[0] != 0x11 {
+        fail(1804);
+    }
+    // exactly up to capacity, then one too many
+    let rest = [0x22u8; N - 65540];
+    if b.extend_from_slice(&rest).is_err() || b.len() != N {
+        fail(1805);
+    }
+    if b.push(1).is_ok() || b.extend_from_slice(&[1]).is_ok() || b.len() != N {
+        fail(1806);
+    }
+    b.truncate(65537);
+    if b.len() != 65537 || b[65536] != x[2] {
+        fail(1807);
+    }
+    b.truncate(70000);
+    if b.len() != 65537 {
+        fail(1808);
+    }
+    b.clear();
+    if b.len() != 0 {
+        fail(1809);
+    }
+    // the decoder on a payload longer than 2^16 bytes in a fixed buffer
+    let mut d = Decoder::<ArrayBuf<N>>::new();
+    for s in START.iter() {
+        let _ = d.push_byte(*s);
+    }
+    let mut i = 0u32;
+    while i < 65540 {
+        if d.push_byte(0x33).is_err() {
+            fail(1810);
+            break;
+        }
+        i += 1;
+    }
+    for v in x.iter() {
+        let _ = d.push_byte(*v);
+    }
+    cover(18);
+    1
+}
